@@ -12,6 +12,7 @@ mod simsource;
 #[path = "../../common/workload.rs"]
 mod workload;
 
+mod chanconf;
 mod exec;
 mod sched;
 
@@ -375,6 +376,9 @@ impl Cov {
         if r.outcome.fired.is_empty() {
             self.fault_free_runs += 1;
         }
+        if r.outcome.probes.0 > 0 {
+            *self.faults_fired.entry("oversize_probe_then_fallback".into()).or_default() += r.outcome.probes.1 as u64;
+        }
         match &r.outcome.result {
             Ok(_) => self.ok_results += 1,
             Err(_) => self.err_results += 1,
@@ -383,6 +387,10 @@ impl Cov {
 }
 
 fn check_streaminfo(w: &Workload, r: &ExecResult) -> Option<String> {
+    if r.outcome.probes.0 != r.outcome.probes.1 {
+        // an oversize probe fill was ACCEPTED: what counts as "consumed" is then undefined here (C17's business)
+        return None;
+    }
     let Ok(bytes) = &r.outcome.result else {
         return Some(format!("fault-free encode returned an error: {:?}", r.outcome.result.as_ref().err()));
     };
@@ -735,6 +743,14 @@ fn main() {
     match args[1].as_str() {
         "run" => cmd_run(&args),
         "exec" => cmd_exec(&args),
+        "chanconf" => {
+            let seed: u64 = arg(&args, "--seed").unwrap_or("1").parse().unwrap();
+            let count: u64 = arg(&args, "--count").unwrap_or("20000").parse().unwrap();
+            match chanconf::run(seed, count) {
+                Ok((n, ops)) => println!("RESULT {}", json!({"sequences": n, "operations": ops, "conforms": true})),
+                Err(e) => harness_error(&format!("channel model does not conform to crossbeam-channel: {e}")),
+            }
+        }
         "gen" => {
             // print the workload a run would generate (for debugging / documentation)
             let prop = arg(&args, "--prop").unwrap_or("C05");
